@@ -284,18 +284,20 @@ pub fn check(_ctx: &Ctx, input: &Input) -> CaseResult {
     // before emitting (its id stays, its index moves behind the imports)
     // the fifth pass adds a module-defined memory and then an imported one
     // through the API (the imported one is emitted first)
-    for (do_gc, synthetic, replace, add_mems) in [
-        (false, false, false, false),
-        (true, false, false, false),
-        (false, true, false, false),
-        (false, false, true, false),
-        (false, false, false, true),
+    // the sixth pass gives the observing section a tool-convention name
+    for (do_gc, synthetic, replace, add_mems, spy_name) in [
+        (false, false, false, false, "verif-spy"),
+        (true, false, false, false, "verif-spy"),
+        (false, true, false, false, "verif-spy"),
+        (false, false, true, false, "verif-spy"),
+        (false, false, false, true, "verif-spy"),
+        (false, false, false, false, "dylink.0"),
     ] {
         if replace && da.imp_funcs.is_empty() {
             continue;
         }
         let mut cfg = wal::Cfg { synthetic_names: synthetic, ..wal::Cfg::plain() }.to_config();
-        let shared = spy::install(&mut cfg, hint.clone());
+        let shared = spy::install_named(&mut cfg, hint.clone(), spy_name);
         let mut m = match wal::parse(&p.bytes, &cfg) {
             Ok(Ok(m)) => m,
             Ok(Err(_)) => {
@@ -380,6 +382,28 @@ pub fn check(_ctx: &Ctx, input: &Input) -> CaseResult {
                 continue;
             }
         };
+        // in the plain passes every entity of the input is alive: the map must
+        // cover exactly the entities of the emitted binary, space by space
+        if !do_gc && !replace && !add_mems {
+            for (space, answered, emitted) in [
+                ("function", ans.funcs.len(), db.n_funcs() as usize),
+                ("table", ans.tables.len(), db.n_tables() as usize),
+                ("memory", ans.mems.len(), db.n_mems() as usize),
+                ("global", ans.globals.len(), db.n_globals() as usize),
+                ("element", ans.elems.len(), db.elems.len()),
+                ("data", ans.datas.len(), db.datas.len()),
+            ] {
+                if answered != emitted {
+                    return Err(Failure::new(
+                        format!("emit-map:{}:count", space),
+                        format!(
+                            "[plain] the input has {} {} entities, all alive and all answered by the emit-time map, but the emitted binary has {} [{}]",
+                            answered, space, emitted, p.origin
+                        ),
+                    ));
+                }
+            }
+        }
         // functions of the generated profile start with a unique tag
         // (`i64.const 0x7a6000+k; drop`): a witness of identity that needs no
         // bijection, so it still decides when the structural comparison fails
@@ -556,11 +580,19 @@ pub fn check(_ctx: &Ctx, input: &Input) -> CaseResult {
 }
 
 fn run(ctx: &Ctx) {
-    let plans = [GenPlan {
-        gen: "full-nobig",
-        cases: ctx.tier.pick(12_000, 300_000),
-        min_len: 0,
-        max_len: ctx.tier.pick(1500, 3000),
-    }];
+    let plans = [
+        GenPlan {
+            gen: "full-nobig",
+            cases: ctx.tier.pick(9_000, 220_000),
+            min_len: 0,
+            max_len: ctx.tier.pick(1500, 3000),
+        },
+        GenPlan {
+            gen: "full-nobig-x",
+            cases: ctx.tier.pick(3_000, 80_000),
+            min_len: 0,
+            max_len: ctx.tier.pick(1500, 3000),
+        },
+    ];
     standard_run(ctx, check, &plans, true);
 }
